@@ -89,6 +89,10 @@ fn documents(g: &Grammar, thorough: bool) -> Vec<(String, String)> {
         gaps.insert(gi, format!("\n/* {sp} */\n"));
         gaps.insert(toks.len(), format!("\n// end {sp}\n"));
         out.push((format!("{} with {sp:?}", c.label), render(&toks, &gaps)));
+        // the same document with ASCII characters only (nothing in the file tells a detector that it is not plain ASCII)
+        if n % 4 == 1 {
+            out.push((format!("{} ASCII only", c.label), c.doc.text()));
+        }
     }
     out
 }
